@@ -300,6 +300,10 @@ def run(ctx: Ctx):
     temperature_rules_for(ctx, "C05", "ID-label")
     r_literal(ctx, rt)
     r_eq(ctx, rt)
+    # "isotherms with the same content - built from lists, from a table ..." : the guessed branch marks are content, and they must
+    # depend on the pressure sequence only, not on the row labels of the table the caller happened to pass (shared with C03 R-split)
+    from .C03 import r_split_values
+    r_split_values(ctx, rt.model, prop="C05")
     # "... or a parse of an export - have the same identifier": the document round trips of C06 / C07 (JSON, CSV, Excel) and the database
     # encoding of metadata values (C08) decide that the content handed back to the constructor is the content exported
     ctx.rule("ID-route: symbolic export->import for JSON, CSV and Excel: constructor input == exported content (shared with C06 / C07; the AIF "
